@@ -21,7 +21,8 @@ RULE = ("exhaustive: import statement forms {import a, import a.b, import a.b.c,
         "import of an already imported module, import after a from-import of the same package} x placement {module, "
         "function, method, class body, loop, if, closure over the bound name, nested function declaring the name "
         "global, function with the name declared nonlocal} x 8 option combinations. Distinct by (form, placement, "
-        "options); non-trivial iff the original imported at least one vendored module (all in-domain cells).")
+        "options); non-trivial iff the original imported at least one vendored module (all in-domain cells)."
+        ' Plus a vendored package whose __all__ names submodules its __init__ does not import (and the stdlib case concurrent.futures).')
 ASSUMPTIONS = ["both executions run with __name__='olpkg.sub.runner', __package__='olpkg.sub' so that relative levels 0-2 resolve",
                "every olpkg* entry is purged from sys.modules and the log reset before each execution"]
 EXHAUSTIVE = {"quick": True, "thorough": True}
